@@ -60,3 +60,16 @@ Theorem C19_repaired_rejects :
   serve shape_current cfg_on one_admin (repair_route runtime_config_route_current) KOpaque anonymous = (401, []) /\
   repair_prefixes prefixes_current = [].
 Proof. vm_compute. repeat split. Qed.
+
+(* C19-create-tsdb-unprivileged: a handler that takes the user but checks nothing (KOpaque, today's
+   servePromCreateTSDB) acts for a user who holds no privilege at all; an administrator check (KAdminOnly) refuses. *)
+Definition nobody : user := mk_user "grantee" "Gr#Pw12345xy" false [].
+Definition tsdb_route_current : route := mk_route "prometheus-create-tsdb" "POST" "/api/v1/tsdb/{tsdb}" "h.servePromCreateTSDB" SigUser "".
+Theorem C19_unchecked_handler_refuted :
+  let us := (one_admin ++ [nobody])%list in
+  let rq := mk_request (mk_creds_in "grantee" "Gr#Pw12345xy" HNone) "" in
+  snd (serve shape_current cfg_on us tsdb_route_current KOpaque rq) <> [] /\
+  u_admin nobody = false /\ u_privs nobody = [] /\
+  serve shape_current cfg_on us tsdb_route_current KAdminOnly rq = (403, []).
+Proof. vm_compute. repeat split. discriminate. Qed.
+Print Assumptions C19_unchecked_handler_refuted.
